@@ -101,20 +101,20 @@ func (c *fctx) instr(fr *frame, in ssa.Instruction, reach string, st *state) {
 		et := x.Type().Underlying().(*types.Slice).Elem()
 		es := c.S.SortOf(et)
 		r := c.allocate(st, reach, "make")
-		key, srt := c.elemKey(es), c.elemSort(es)
+		key, srt := c.elemKey(et), c.elemSort(es)
 		c.loopCheck(fr, key)
-		c.setRegion(st, key, srt, fmt.Sprintf("(store %s %s ((as const (Array Int %s)) %s))", c.region(st, key, srt), r, es, c.S.Zero(et)))
+		c.setRegion(st, key, srt, fmt.Sprintf("(store %s %s %s)", c.region(st, key, srt), r, c.S.ConstArray("Int", es, c.S.Zero(et))))
 		fr.vals[x] = val{t: fmt.Sprintf("(mkslice %s 0 %s %s)", r, l, cp)}
 	case *ssa.MakeMap:
 		mt := x.Type().Underlying().(*types.Map)
 		r := c.allocate(st, reach, "map")
-		ks, vs := c.S.SortOf(mt.Key()), c.S.SortOf(mt.Elem())
-		hk, hs := "MH:"+ks, "(Array Int (Array "+ks+" Bool))"
+		ks := c.S.SortOf(mt.Key())
+		hk, hs := c.mapHasKey(mt), c.mapHasSort(mt)
+		lk := c.mapLenKey(mt)
 		c.loopCheck(fr, hk)
-		c.loopCheck(fr, "ML")
-		c.setRegion(st, hk, hs, fmt.Sprintf("(store %s %s ((as const (Array %s Bool)) false))", c.region(st, hk, hs), r, ks))
-		c.setRegion(st, "ML", "(Array Int Int)", fmt.Sprintf("(store %s %s 0)", c.region(st, "ML", "(Array Int Int)"), r))
-		_ = vs
+		c.loopCheck(fr, lk)
+		c.setRegion(st, hk, hs, fmt.Sprintf("(store %s %s %s)", c.region(st, hk, hs), r, c.S.ConstArray(ks, "Bool", "false")))
+		c.setRegion(st, lk, "(Array Int Int)", fmt.Sprintf("(store %s %s 0)", c.region(st, lk, "(Array Int Int)"), r))
 		fr.vals[x] = val{t: r}
 	case *ssa.MapUpdate:
 		mt := x.Map.Type().Underlying().(*types.Map)
@@ -122,16 +122,16 @@ func (c *fctx) instr(fr *frame, in ssa.Instruction, reach string, st *state) {
 		k := c.termOf(c.operand(fr, x.Key), "map key")
 		v := c.termOf(c.operand(fr, x.Value), "map value")
 		c.safety(fr, "nil-map-write", x.Pos(), reach, fmt.Sprintf("(not (= %s 0))", m))
-		ks, vs := c.S.SortOf(mt.Key()), c.S.SortOf(mt.Elem())
-		hk, hs := "MH:"+ks, "(Array Int (Array "+ks+" Bool))"
-		vk, vsrt := "MV:"+ks+":"+vs, "(Array Int (Array "+ks+" "+vs+"))"
+		hk, hs := c.mapHasKey(mt), c.mapHasSort(mt)
+		vk, vsrt := c.mapValKey(mt), c.mapValSort(mt)
+		lk := c.mapLenKey(mt)
 		c.noteWrite(hk, m, reach, x.Pos(), fr, st)
 		c.noteWrite(vk, m, reach, x.Pos(), fr, st)
-		c.noteWrite("ML", m, reach, x.Pos(), fr, st)
+		c.noteWrite(lk, m, reach, x.Pos(), fr, st)
 		has := c.region(st, hk, hs)
 		mv := c.region(st, vk, vsrt)
-		ml := c.region(st, "ML", "(Array Int Int)")
-		c.setRegion(st, "ML", "(Array Int Int)", fmt.Sprintf("(store %s %s (ite (select (select %s %s) %s) (select %s %s) (+ 1 (select %s %s))))", ml, m, has, m, k, ml, m, ml, m))
+		ml := c.region(st, lk, "(Array Int Int)")
+		c.setRegion(st, lk, "(Array Int Int)", fmt.Sprintf("(store %s %s (ite (select (select %s %s) %s) (select %s %s) (+ 1 (select %s %s))))", ml, m, has, m, k, ml, m, ml, m))
 		c.setRegion(st, hk, hs, fmt.Sprintf("(store %s %s (store (select %s %s) %s true))", has, m, has, m, k))
 		c.setRegion(st, vk, vsrt, fmt.Sprintf("(store %s %s (store (select %s %s) %s %s))", mv, m, mv, m, k, v))
 	case *ssa.Slice:
@@ -165,7 +165,7 @@ func (c *fctx) instr(fr *frame, in ssa.Instruction, reach string, st *state) {
 func (c *fctx) loopCheck(fr *frame, key string) {
 	for f := fr; f != nil; f = f.parent {
 		for _, li := range f.loops {
-			if f.cur != nil && li.blocks[f.cur] && li.writes != nil && !li.writes[key] {
+			if f.cur != nil && li.blocks[f.cur] && li.writes != nil && li.writes[key] == nil {
 				c.errorf("internal: write to region %s inside loop %d of %s is missing from the loop's write set", key, li.ordinal, f.fn)
 			}
 		}
@@ -185,13 +185,13 @@ func (c *fctx) doAlloc(fr *frame, t types.Type, reach string, st *state, hint st
 	}
 	if ar, ok := types.Unalias(t).Underlying().(*types.Array); ok {
 		es := c.S.SortOf(ar.Elem())
-		key, srt := c.elemKey(es), c.elemSort(es)
+		key, srt := c.elemKey(ar.Elem()), c.elemSort(es)
 		c.loopCheck(fr, key)
-		c.setRegion(st, key, srt, fmt.Sprintf("(store %s %s ((as const (Array Int %s)) %s))", c.region(st, key, srt), r, es, c.S.Zero(ar.Elem())))
+		c.setRegion(st, key, srt, fmt.Sprintf("(store %s %s %s)", c.region(st, key, srt), r, c.S.ConstArray("Int", es, c.S.Zero(ar.Elem()))))
 		return r
 	}
 	srt := c.S.SortOf(t)
-	key := "P:" + srt
+	key := c.cellKey(t)
 	c.loopCheck(fr, key)
 	c.setRegion(st, key, "(Array Int "+srt+")", fmt.Sprintf("(store %s %s %s)", c.region(st, key, "(Array Int "+srt+")"), r, c.S.Zero(t)))
 	return r
@@ -241,19 +241,19 @@ func (c *fctx) indexAddr(fr *frame, x *ssa.IndexAddr, reach string) *addr {
 	case *types.Slice:
 		es := c.S.SortOf(t.Elem())
 		c.safety(fr, "index", x.Pos(), reach, fmt.Sprintf("(and (<= 0 %s) (< %s (slen %s)))", iv, iv, xv.t))
-		return &addr{kind: aElem, key: c.elemKey(es), ref: "(sbase " + xv.t + ")", idx: fmt.Sprintf("(+ (soff %s) %s)", xv.t, iv), typ: t.Elem(), rootSort: es}
+		return &addr{kind: aElem, key: c.elemKey(t.Elem()), ref: "(sbase " + xv.t + ")", idx: fmt.Sprintf("(idx (soff %s) %s)", xv.t, iv), typ: t.Elem(), rootSort: es}
 	case *types.Pointer:
 		ar := types.Unalias(t.Elem()).Underlying().(*types.Array)
 		es := c.S.SortOf(ar.Elem())
 		if xv.a != nil {
 			c.errorf("%s: index into array inside a struct (unsupported)", fr.fn)
-			return &addr{kind: aElem, key: c.elemKey(es), ref: "0", idx: iv, typ: ar.Elem(), rootSort: es}
+			return &addr{kind: aElem, key: c.elemKey(ar.Elem()), ref: "0", idx: iv, typ: ar.Elem(), rootSort: es}
 		}
 		if _, isAlloc := x.X.(*ssa.Alloc); !isAlloc {
 			c.safety(fr, "nil-deref", x.Pos(), reach, fmt.Sprintf("(not (= %s 0))", xv.t))
 		}
 		c.safety(fr, "index", x.Pos(), reach, fmt.Sprintf("(and (<= 0 %s) (< %s %d))", iv, iv, ar.Len()))
-		return &addr{kind: aElem, key: c.elemKey(es), ref: xv.t, idx: iv, typ: ar.Elem(), rootSort: es}
+		return &addr{kind: aElem, key: c.elemKey(ar.Elem()), ref: xv.t, idx: iv, typ: ar.Elem(), rootSort: es}
 	}
 	c.errorf("%s: IndexAddr on %s", fr.fn, x.X.Type())
 	return &addr{kind: aCell, key: "P:Int", ref: "0", typ: types.Typ[types.Int], rootSort: "Int"}
@@ -267,9 +267,9 @@ func (c *fctx) lookup(fr *frame, x *ssa.Lookup, reach string, st *state) {
 		c.safety(fr, "index", x.Pos(), reach, fmt.Sprintf("(and (<= 0 %s) (< %s (len %s)))", iv.t, iv.t, xv.t))
 		fr.vals[x] = val{t: fmt.Sprintf("(at %s %s)", xv.t, iv.t)}
 	case *types.Map:
-		ks, vs := c.S.SortOf(t.Key()), c.S.SortOf(t.Elem())
-		has := c.region(st, "MH:"+ks, "(Array Int (Array "+ks+" Bool))")
-		mv := c.region(st, "MV:"+ks+":"+vs, "(Array Int (Array "+ks+" "+vs+"))")
+		vs := c.S.SortOf(t.Elem())
+		has := c.region(st, c.mapHasKey(t), c.mapHasSort(t))
+		mv := c.region(st, c.mapValKey(t), c.mapValSort(t))
 		k := c.termOf(iv, "map key")
 		ok := fmt.Sprintf("(and (not (= %s 0)) (select (select %s %s) %s))", xv.t, has, xv.t, k)
 		v := c.define("mapv", vs, fmt.Sprintf("(ite %s (select (select %s %s) %s) %s)", ok, mv, xv.t, k, c.S.Zero(t.Elem())))
@@ -296,7 +296,14 @@ func (c *fctx) unop(fr *frame, x *ssa.UnOp, reach string, st *state) {
 		t := c.load(a, st)
 		srt := c.S.SortOf(x.Type())
 		n := c.define("ld", srt, t)
-		c.assumeFacts(reach, n, x.Type(), st)
+		if c.initialRegion(a, st) {
+			// a value read from memory that has not been written since entry was reachable at entry
+			if fs := c.typeFacts(n, x.Type(), "alloc0", 0); len(fs) > 0 {
+				c.assume(implies(reach, and(fs...)))
+			}
+		} else {
+			c.assumeFacts(reach, n, x.Type(), st)
+		}
 		fr.vals[x] = val{t: n}
 	case token.NOT:
 		fr.vals[x] = val{t: not(c.operand(fr, x.X).t)}
@@ -492,7 +499,7 @@ func (c *fctx) convert(fr *frame, x *ssa.Convert, reach string, st *state) val {
 		}
 		eb, _ := types.Unalias(sl.Elem()).Underlying().(*types.Basic)
 		r := c.allocate(st, reach, "conv")
-		key, srt := c.elemKey("Int"), c.elemSort("Int")
+		key, srt := c.elemKey(sl.Elem()), c.elemSort("Int")
 		c.loopCheck(fr, key)
 		arr := c.fresh("bytes", "(Array Int Int)")
 		c.setRegion(st, key, srt, fmt.Sprintf("(store %s %s %s)", c.region(st, key, srt), r, arr))
@@ -511,9 +518,9 @@ func (c *fctx) convert(fr *frame, x *ssa.Convert, reach string, st *state) val {
 			eb, _ := types.Unalias(sl.Elem()).Underlying().(*types.Basic)
 			s := c.fresh("str", "Str")
 			if eb != nil && eb.Kind() == types.Uint8 {
-				h := c.region(st, c.elemKey("Int"), c.elemSort("Int"))
+				h := c.region(st, c.elemKey(sl.Elem()), c.elemSort("Int"))
 				c.assume(fmt.Sprintf("(= (len %s) (slen %s))", s, v.t))
-				c.assume(fmt.Sprintf("(forall ((i!c Int)) (! (=> (and (<= 0 i!c) (< i!c (slen %s))) (= (at %s i!c) (select (select %s (sbase %s)) (+ (soff %s) i!c)))) :pattern ((at %s i!c))))", v.t, s, h, v.t, v.t, s))
+				c.assume(fmt.Sprintf("(forall ((i!c Int)) (! (=> (and (<= 0 i!c) (< i!c (slen %s))) (= (at %s i!c) (select (select %s (sbase %s)) (idx (soff %s) i!c)))) :pattern ((at %s i!c))))", v.t, s, h, v.t, v.t, s))
 				return val{t: s}
 			}
 			c.used["abstracted:string([]rune) (rune encoding uninterpreted)"] = true
@@ -651,8 +658,8 @@ func (c *fctx) next(fr *frame, x *ssa.Next, reach string, st *state) {
 	if mt, isMap := types.Unalias(it.typ).Underlying().(*types.Map); isMap {
 		ks, vs := c.S.SortOf(mt.Key()), c.S.SortOf(mt.Elem())
 		k := c.fresh("nxk", ks)
-		has := c.region(st, "MH:"+ks, "(Array Int (Array "+ks+" Bool))")
-		mv := c.region(st, "MV:"+ks+":"+vs, "(Array Int (Array "+ks+" "+vs+"))")
+		has := c.region(st, c.mapHasKey(mt), c.mapHasSort(mt))
+		mv := c.region(st, c.mapValKey(mt), c.mapValSort(mt))
 		v := c.define("nxv", vs, fmt.Sprintf("(select (select %s %s) %s)", mv, it.x.t, k))
 		c.assume(implies(and(reach, ok), fmt.Sprintf("(and (not (= %s 0)) (select (select %s %s) %s))", it.x.t, has, it.x.t, k)))
 		c.assumeFacts(and(reach, ok), k, mt.Key(), st)
